@@ -1,12 +1,14 @@
 (* C20 — goproxytest serves exactly the modules stored in its directory.
    This file contains only the property theorems, each closed by [exact] of a lemma proved
    elsewhere (Proxy/ProxyStrings.v, ProxyFacts.v, ProxyConc.v, ProxyTheorems.v), with
-   Print Assumptions beneath it.  The model is Proxy/Proxy.v; every literal of goproxytest
+   Print Assumptions beneath it (ProxyExact.v: the request space as an iff, the list as a set,
+   arbitrary bytes, history independence).  The model is Proxy/Proxy.v; every literal of goproxytest
    (routing strings, extensions, suffixes, separators) is a name of Gen/ProxyConsts.v. *)
 From Coq Require Import List NArith.
 From Coq.Strings Require Import Byte.
 From GI Require Import Gen.ProxyConsts Proxy.Proxy Proxy.ProxyStrings Proxy.ProxyFacts Proxy.ProxyConc
-  Proxy.ProxyTheorems Proxy.ProxyExamples Proxy.XMod Proxy.XModFacts Proxy.ProxyRefine Proxy.ProxyRefineInst.
+  Proxy.ProxyTheorems Proxy.ProxyExamples Proxy.XMod Proxy.XModFacts Proxy.ProxyRefine Proxy.ProxyRefineInst
+  Proxy.ProxyExact Proxy.ProxyExactExamples.
 From GI Require Import Par.ParCache Par.ParCacheBase Par.ParCacheProofs.
 Import ListNotations.
 
@@ -245,3 +247,88 @@ Theorem C20_alias_history_dependent :
   ~ compatible O0 d1 ml1 alias_urls.
 Proof. exact alias_history_dependent. Qed.
 Print Assumptions C20_alias_history_dependent.
+
+(* "anything not stored yields 404" as an IFF over all URL paths: the response is something else
+   than 404 exactly when the URL is the list of a module with a listable version, or info/mod of a
+   stored version (after commit-hash resolution) that holds that entry, or its zip *)
+Theorem C20_route_404_exact : forall O d ml url,
+  respond O d ml url <> NotFound <->
+  ((exists p, route O url = RList p /\ listed O ml p <> []) \/
+   (exists p v e a, route O url = RFile p v e /\
+      stored O d p (target_version O d ml p v) = Some a /\
+      ((e = ext_info \/ e = ext_mod) /\ find_file (entry_dot ++ e) a <> None \/ e = ext_zip))).
+Proof. exact route_404_exact. Qed.
+Print Assumptions C20_route_404_exact.
+
+(* the same, executable (extracted and compared with the status of every HTTP response): served_b
+   decides it from the store without running a handler *)
+Theorem C20_served_b_exact : forall O d ml url,
+  served_b O d ml url = true <-> respond O d ml url <> NotFound.
+Proof. exact served_b_exact. Qed.
+Print Assumptions C20_served_b_exact.
+
+(* an extension that is not info/mod/zip is 404 for a stored version even when the archive holds
+   the dot-file of that name (.netrc, .gitignore, .info2, ...): dot-files have no endpoint *)
+Theorem C20_dotfile_not_served : forall O d ml p v ep ev a e data,
+  path_ok O p -> vers_ok O v ->
+  escape_string p = Some ep -> escape_string v = Some ev ->
+  stored O d p v = Some a ->
+  find_file (entry_dot ++ e) a = Some data ->
+  ~ In ext_sep e -> e <> ext_info -> e <> ext_mod -> e <> ext_zip ->
+  respond O d ml (file_url ep ev e) = NotFound.
+Proof. exact dotfile_not_served. Qed.
+Print Assumptions C20_dotfile_not_served.
+
+(* byte identity for EVERY byte string: a directory storing i as .info, m as .mod and x as x.go
+   (next to two dot-files) serves exactly i, exactly m, a zip with exactly x, and hides the
+   dot-files; no hypothesis on i, m, x *)
+Theorem C20_serves_arbitrary_bytes : forall i m x : bytes,
+  respond O0 (d3 i m x) ml3 u3_info = OkBytes i /\
+  respond O0 (d3 i m x) ml3 u3_mod = OkBytes m /\
+  respond O0 (d3 i m x) ml3 u3_zip = OkZip [(zip3_name, x)] /\
+  respond O0 (d3 i m x) ml3 u3_netrc = NotFound /\
+  respond O0 (d3 i m x) ml3 u3_gitignore = NotFound.
+Proof. exact serves_arbitrary_bytes. Qed.
+Print Assumptions C20_serves_arbitrary_bytes.
+
+(* the order the list endpoint produces is the order of the module list (directory order) ... *)
+Theorem C20_list_in_modlist_order : forall O ml1 ml2 p,
+  listed O (ml1 ++ ml2) p = listed O ml1 p ++ listed O ml2 p.
+Proof. exact listed_app. Qed.
+Print Assumptions C20_list_in_modlist_order.
+
+(* ... but the property is about the SET: servers whose module lists are permutations of each
+   other (one that sorts, say) answer with the same status and the same multiset of lines, which
+   is exactly the listable versions of the module list *)
+Theorem C20_list_exact_set : forall O d ml ml' p ep,
+  path_ok O p -> escape_string p = Some ep -> Permutation.Permutation ml ml' ->
+  (respond O d ml (list_url ep) = NotFound /\ respond O d ml' (list_url ep) = NotFound) \/
+  (exists vs vs', respond O d ml (list_url ep) = OkBytes (list_body vs) /\
+                  respond O d ml' (list_url ep) = OkBytes (list_body vs') /\
+                  vs <> [] /\ Permutation.Permutation vs vs' /\
+                  (forall v, In v vs <-> In (p, v) ml /\ is_pseudo O v = false /\ module_check O p v = true)).
+Proof. exact list_response_perm. Qed.
+Print Assumptions C20_list_exact_set.
+
+(* no version is listed twice unless the module list holds it twice *)
+Theorem C20_list_no_duplicates : forall O ml p, NoDup ml -> NoDup (listed O ml p).
+Proof. exact listed_nodup. Qed.
+Print Assumptions C20_list_no_duplicates.
+
+(* the server as a state machine (module list read at start-up + the two caches): no sequence of
+   requests changes the module list *)
+Theorem C20_modlist_immutable : forall O d s urls,
+  sv_modlist (snd (serve_all O d s urls)) = sv_modlist s.
+Proof. exact modlist_immutable. Qed.
+Print Assumptions C20_modlist_immutable.
+
+(* and after ANY history of non-aliasing requests a probe is answered as by a freshly started
+   server: every response is a function (respond_pure) of the store and the URL alone *)
+Theorem C20_history_independent : forall O d s hist probe,
+  server_start O d = Some s ->
+  compatible O d (sv_modlist s) (hist ++ [probe]) ->
+  nth_error (fst (serve_all O d s (hist ++ [probe]))) (length hist) =
+    Some (respond O d (sv_modlist s) probe) /\
+  fst (serve_all O d s (hist ++ [probe])) = map (respond_pure O d (sv_modlist s)) (hist ++ [probe]).
+Proof. exact history_independent. Qed.
+Print Assumptions C20_history_independent.
